@@ -93,12 +93,16 @@ func runC19(p *core.Prog, r *core.Report) {
 		r.Fail("C19-R1", "anchor fields", "-", "cannot identify wrapped writer / size (via Size()) / status channel (via Status())")
 		return
 	}
-	fns := p.PkgFuncs("util/ioutil")
+	// all rules run on the package's inlined views: private helpers (sum, account/offer, …) are seen in place
+	var fns []*ssa.Function
+	for _, v := range pkgViews(p, "util/ioutil") {
+		fns = append(fns, sx.WithClosures(v.Fn)...)
+	}
 	methods := map[string]*ssa.Function{}
 	ms := p.SSA.MethodSets.MethodSet(types.NewPointer(n))
 	for i := 0; i < ms.Len(); i++ {
 		if fn := p.SSA.MethodValue(ms.At(i)); fn != nil && fn.Blocks != nil && fn.Synthetic == "" {
-			methods[ms.At(i).Obj().Name()] = fn
+			methods[ms.At(i).Obj().Name()] = p.Inl(fn)
 		}
 	}
 	// size writers
@@ -122,7 +126,15 @@ func runC19(p *core.Prog, r *core.Report) {
 	}
 	isForward := func(c ssa.CallInstruction) bool {
 		cc := c.Common()
-		if !cc.IsInvoke() || (cc.Method.Name() != "Write" && cc.Method.Name() != "WriteString") {
+		if !cc.IsInvoke() {
+			// io.WriteString(w, s) is the standard library's spelling of "WriteString if available, else Write": one forwarding
+			// call with the same (n, err) contract
+			if sx.CalleeName(c) == "io.WriteString" && len(cc.Args) == 2 {
+				return sx.Origins(cc.Args[0])["field:ProgressWriter."+wr.Name()]
+			}
+			return false
+		}
+		if cc.Method.Name() != "Write" && cc.Method.Name() != "WriteString" {
 			return false
 		}
 		return sx.Origins(cc.Value)["field:ProgressWriter."+wr.Name()]
@@ -277,7 +289,8 @@ func runC19(p *core.Prog, r *core.Report) {
 			r.Check(ok, "C19-R1", fmt.Sprintf("%s: return #%d passes (n, err) through", name, i), p.Pos(ret.Pos()), "results are the wrapped call's results", "returned values are not the wrapped call's (n, err)")
 		}
 		// R2: sends reachable from here
-		for f := range reachableFrom(p, fn) {
+		for _, f := range viewFuncs(p, fn) {
+			f := f
 			sx.Instrs(f, func(in ssa.Instruction) {
 				switch x := in.(type) {
 				case *ssa.UnOp:
@@ -311,6 +324,17 @@ func runC19(p *core.Prog, r *core.Report) {
 							if ld, ok := st.Send.(*ssa.UnOp); ok {
 								okv = sx.MustPass(f, nil, ld, cut) && len(cut.Instrs) > 0
 							}
+						} else {
+							// the new total handed on as a value: the very value a size update stores, sent after that store
+							sx.Instrs(f, func(i2 ssa.Instruction) {
+								if s2, ok := i2.(*ssa.Store); ok {
+									if fa, ok := s2.Addr.(*ssa.FieldAddr); ok && sx.FieldOf(fa) == size && s2.Val == st.Send {
+										if sx.MustPass(f, nil, in, sx.Cut{Instrs: map[ssa.Instruction]bool{i2: true}}) {
+											okv = true
+										}
+									}
+								}
+							})
 						}
 						r.Check(okv, "C19-R2", c, p.Pos(in.Pos()), "non-blocking send of the size read after the addition", "value offered on the status channel is not the size after this write")
 					}
